@@ -28,12 +28,12 @@ MANIFEST = {
                  'framing, encoded by an independent encoder, posted to the real application and compared with a dict-of-lists model',
     'text': 'All lists of up to 2 parts in every configuration and all 3-part lists (quick: over a 10-part core) are posted; '
             'forms, files (raw file name, content type, bytes) and POST seen by the handler must equal the reference model.',
-    'note': 'Bounds: <=3 parts, 32-part universe, 5 boundary spellings, thresholds {400, default}, Content-Length / 7-byte chunks / chunks of max_memfile_size bytes. '
+    'note': 'Bounds: <=3 parts, 32-part universe, 7 boundary spellings, thresholds {400, default}, Content-Length / 7-byte chunks / chunks of max_memfile_size bytes. '
             'Trusted: the reference encoder vf/refmp.py.',
 }
 
 B70 = "0123456789abcdefghijklmnopqrstuvwxyzABCDEFGHIJKLMNOPQRSTUVWXYZ'()+_,./:=?"[:70]
-BOUNDARIES = [('BND', False), ("a'()+_,-./:=?", True), ("a'()+_,-./:=?", False), (B70, False), ('-', False), ('B D', True)]
+BOUNDARIES = [('BND', False), ("a'()+_,-./:=?", True), ("a'()+_,-./:=?", False), (B70, False), ('-', False), ('B D', True), (' lead:blank', True)]
 SOUP = b'\r\n--BN\r\n-\r--\n--BND-\r\n--BN'
 TEXTS = [('a', ''), ('a', 'v'), ('b', 'ü€'), ('a;b', 'x=y;z'), ('a=b', ' lead '), ('a b', 'l1\r\nl2'), ('ü', '--BND'), ('a\\b', '\r\n--BN'),
          ("a'b", 'v2'), ('b', 'w'), ('c', '\r\n'), ('a', 'third')]
